@@ -147,9 +147,9 @@ func keyScenario(rt ring.Type, logN int, ch rk.Chain, np int, kind string, bound
 	name := fmt.Sprintf("keys/%s/%s/logN%d/%s/P%d", kind, ringName(rt), logN, ch.Name, np)
 	return engine.Scenario{Name: name, Bound: bound, Fn: func(c *engine.Chooser) {
 		n := 1 << logN
-		xeI := c.Choose(3, "Xe")
+		xeI := c.Choose(len(xeFor(ch)), "Xe")
 		xsI := []int{0, 3}[c.Choose(2, "Xs")]
-		p := rk.Params(ch.Lit(logN, maxLogN, rt, true, xsAlphabet(n)[xsI], xeAlphabet()[xeI]))
+		p := rk.Params(ch.Lit(logN, maxLogN, rt, true, xsAlphabet(n)[xsI], xeFor(ch)[xeI]))
 		L := p.MaxLevel()
 		if kind == "pk" {
 			cfg := fmt.Sprintf("pk Xs=%s Xe=%s", rk.DistName(p.Xs()), rk.DistName(p.Xe()))
